@@ -34,7 +34,7 @@ type FSpec struct {
 	Omit  bool   `json:"omit,omitempty"`  // ,omitempty
 	Str   bool   `json:"str,omitempty"`   // ,string
 	ST    string `json:"st,omitempty"`    // jsonschema tag class ("description", "enum", ...)
-	Emb   string `json:"emb,omitempty"`   // "", "val" (EmbBase), "ptr" (*EmbOther), "tagged" (Leaf with a json name)
+	Emb   string `json:"emb,omitempty"`   // "", "val" (EmbBase), "ptr" (*EmbOther), "tagged" (Leaf with a json name), "sval" / "sptr" (T embedded by value / through a pointer, collide.go)
 	Unexp bool   `json:"unexp,omitempty"` // unexported field
 	T     TSpec  `json:"t"`
 }
@@ -132,6 +132,10 @@ func (f *FSpec) structField() reflect.StructField {
 	case "tagged":
 		ct, _ := corpus.ByName("Leaf")
 		return reflect.StructField{Name: "Leaf", Type: ct, Anonymous: true, Tag: `json:"leaf_emb"`}
+	case "sval":
+		return reflect.StructField{Name: f.Name, Type: f.T.Type(), Anonymous: true}
+	case "sptr":
+		return reflect.StructField{Name: f.Name, Type: reflect.PointerTo(f.T.Type()), Anonymous: true}
 	}
 	sf := reflect.StructField{Name: f.Name, Type: f.T.Type(), Tag: reflect.StructTag(f.tag())}
 	if f.Unexp {
@@ -420,6 +424,12 @@ func goString(t *TSpec) string {
 			case "tagged":
 				fs = append(fs, "corpus.Leaf `json:\"leaf_emb\"`")
 				continue
+			case "sval":
+				fs = append(fs, "/*embedded*/ "+goString(&f.T))
+				continue
+			case "sptr":
+				fs = append(fs, "/*embedded*/ *"+goString(&f.T))
+				continue
 			}
 			s := f.Name + " " + goString(&f.T)
 			if tg := f.tag(); tg != "" {
@@ -510,6 +520,12 @@ func fieldOwnFeatures(f *FSpec, seen map[string]bool, sibNames map[string]bool) 
 		return out
 	case "tagged":
 		out["embedded-tagged"] = true
+		return out
+	case "sval":
+		out["embed-struct"] = true
+		return out
+	case "sptr":
+		out["embed-struct-ptr"] = true
 		return out
 	}
 	if f.Unexp {
